@@ -105,6 +105,12 @@ func (e *seqEngine) Run(a *agg, spec *PropSpec, seed uint64) {
 		}
 		a.st.Samples = append(a.st.Samples, map[string]any{"engine": "seq", "seed": seed, "config": sc.Cfg, "first_ops": ops, "total_ops": len(sc.Ops)})
 	}
+	if out.Infra != "" {
+		if len(a.st.InfraErrors) < 5 {
+			a.st.InfraErrors = append(a.st.InfraErrors, fmt.Sprintf("seed %d: %s", seed, out.Infra))
+		}
+		return
+	}
 	rel, foreign := relevant(out.Viol, spec.ID)
 	mergeCounts(a.st.Foreign, foreign)
 	if len(rel) == 0 {
